@@ -21,6 +21,7 @@ func runC04(c *Ctx) {
 	}
 	c.Exhaustive = true
 	c.Rule = fmt.Sprintf("all call sequences, every request of the configuration's universe enforced before the first and after every change, the live decisions compared after every change with the Lean model and (on the implementation) with a freshly constructed enforcer given the listed rules and the functions registered so far: (1) RBAC model whose names include patterns (/book/* etc.), depth <= %d over 17 calls {Add/Remove (Grouping)Policy, UpdateGroupingPolicy incl. an identity update, AddGroupingPoliciesEx, RemoveFilteredGroupingPolicy, ClearPolicy, LoadPolicy, BuildRoleLinks, SetRoleManager(+BuildRoleLinks), AddNamedMatchingFunc, SetModel}, two of the requests also through EnforceWithMatcher with a second matcher; (2) the same model, depth 2 over those calls plus every other path (batch removal and update on p and g, UpdateFilteredPolicies, SavePolicy, batches rejected half-way); (3) the same model with auto-build and auto-save off over a pre-filled store, depth <= %d over 7 calls (stale links between LoadPolicy and BuildRoleLinks are by design and not judged); (4) a domain model with a '*' domain, depth <= %d over 14 calls {Add/Remove policy and grouping rules, ClearPolicy, LoadPolicy, SetRoleManager, AddNamedMatchingFunc, AddNamedDomainMatchingFunc, SetModel}; (5) a model with two role definitions g / g2, depth 3 over every way of changing g2's rules (13 calls); direct cases: a domain matching function replaced after a query, a custom function registered twice; a conditional role definition at depth 3 (implementation vs fresh enforcer only); seeded random sequences to length 30 on (1) and (4); non-trivial = a sequence in which some decision changed; distinct = whole sequence", depth, depth+1, map[bool]int{false: 3, true: depth}[c.Thorough()])
+	c04SetModelPairs(c)
 	// plain RBAC with pattern-like names
 	ms := rbacSpec(false, false)
 	P := [][]string{{"book_admin", "data", "read"}, {"alice", "data", "write"}}
